@@ -536,6 +536,22 @@ Definition po_fn_move (src dst key : string) (body : json) : res json :=
   | _ => ErrType
   end.
 
+(* def f(body): body.setdefault(k1, {}).setdefault(k2, {}).setdefault(k3, v)        ("ensure": a no-op when it is there) *)
+Definition po_fn_ensure3 (k1 k2 k3 : string) (v : json) (body : json) : res json :=
+  match body with
+  | JObj kvs =>
+      match (match lookup k1 kvs with Some s => s | None => JObj [] end) with
+      | JObj s1 =>
+          match (match lookup k2 s1 with Some s => s | None => JObj [] end) with
+          | JObj s2 =>
+              Ok (JObj (set k1 (JObj (set k2 (JObj (match lookup k3 s2 with Some _ => s2 | None => set k3 v s2 end)) s1)) kvs))
+          | _ => ErrType
+          end
+      | _ => ErrType
+      end
+  | _ => ErrType
+  end.
+
 (* def f(body): raise TypeError *)
 Definition po_fn_raise (body : json) : res json := ErrType.
 
